@@ -34,7 +34,8 @@ BadFull(e) ==
        ELSE { k \in 1..Len(c) : Obs(e.obs[k]) # c[k] }
 
 Judge(e) ==
-    IF e.kind = "exclude"
+    IF ~e.inputs_unchanged THEN <<"fail", {"the caller's matrix / vector was modified"}>>
+    ELSE IF e.kind = "exclude"
     THEN LET b0 == BadParts(e, {})
          IN IF b0 = {} /\ AlgoAgrees(e) THEN <<"ok", {}>>
             ELSE LET hits == { d \in PartitionDeviations : BadParts(e, {d}) = {} }
